@@ -120,8 +120,12 @@ class World:
                 raise Violation("audit", step, {"handle": name, "expected_vs_got": dict(list(diff.items())[:8])})
 
     def state_of(self, name):
-        v = self.h[name]._values
-        return "array" if isinstance(v, RaggedArray) else ("scalar0" if v == 0 else "scalarN")
+        """Non-gating reach probe: which hidden value state a table is in."""
+        try:
+            v = self.h[name]._values
+            return "array" if isinstance(v, RaggedArray) else ("scalar0" if v == 0 else "scalarN")
+        except Exception:
+            return "unknown"
 
     # -- operations --------------------------------------------------------------------------
     def do(self, i, op):
@@ -384,13 +388,13 @@ def run(history, config=None, audit=True):
     """Returns (violation dict | None, World)."""
     config = config or {}
     w = World(config)
-    old_time = _ht.time
+    old_time = getattr(_ht, "time", None)
     clock = FakeClock(config.get("clock") or [0.0])
     _ht.time = clock
-    old_fast = ViewBase.empty_rows_removed
-    if config.get("fast_off"):
+    old_fast = getattr(ViewBase, "empty_rows_removed", None)
+    if config.get("fast_off") and old_fast is not None:
         ViewBase.empty_rows_removed = lambda self: False
-    old_width = ViewBase._dtype
+    old_width = getattr(ViewBase, "_dtype", np.int64)
     if config.get("width") == "int32":
         ViewBase.set_dtype(np.int32)
     v = None
@@ -420,8 +424,12 @@ def run(history, config=None, audit=True):
                              "detail": {"handle": name, "via": "items()"}}
                         break
     finally:
-        _ht.time = old_time
-        ViewBase.empty_rows_removed = old_fast
+        if old_time is not None:
+            _ht.time = old_time
+        elif hasattr(_ht, "time"):
+            del _ht.time
+        if old_fast is not None:
+            ViewBase.empty_rows_removed = old_fast
         ViewBase.set_dtype(old_width)
     w.stats["clock_reads"] = clock.reads
     return v, w
